@@ -545,6 +545,22 @@ fn run_type<T: Text>(rec: &mut Rec, prop: &str, seed: u64, thorough: bool) {
                 for b in fmt_values(&mut r, n, 6) {
                     fmt_events(rec, &mut r, T::dec(&b), 4);
                 }
+                let step = if thorough { 1 } else if n <= 300 { 5 } else { 40 };
+                let off = (seed % step as u64) as u32;
+                let ten = vec![10u8];
+                let mut p = gen::small(n, 1);
+                let mut k = 0u32;
+                loop {
+                    if k % step == off {
+                        fmt_events(rec, &mut r, T::dec(&p), 2);
+                    }
+                    let q = gen::umul(&gen::trim(p.clone()), &ten);
+                    if gen::trim(q.clone()).len() > n || (q.len() >= n && q[n - 1] & 0x80 != 0) {
+                        break;
+                    }
+                    p = gen::fit(&gen::trim(q), n);
+                    k += 1;
+                }
             }
             _ => panic!("unknown property"),
         }
@@ -589,6 +605,26 @@ fn run_type<T: Text>(rec: &mut Rec, prop: &str, seed: u64, thorough: bool) {
         "C12" => {
             for b in fmt_values(&mut r, n, scale(16, 60)) {
                 fmt_events(rec, &mut r, T::dec(&b), if thorough { 120 } else { 24 });
+            }
+            // wide types: powers of ten over the whole width (decimal digit-count estimates), a few formats each
+            if n >= 64 {
+                let step = if thorough { 1 } else { 4 };
+                let off = (seed % step as u64) as u32;
+                let ten = vec![10u8];
+                let mut p = gen::small(n, 1);
+                let mut k = 0u32;
+                loop {
+                    if k % step == off {
+                        fmt_events(rec, &mut r, T::dec(&p), 3);
+                        fmt_events(rec, &mut r, T::dec(&gen::sub1(&p)), 2);
+                    }
+                    let q = gen::umul(&gen::trim(p.clone()), &ten);
+                    if gen::trim(q.clone()).len() > n || (q.len() >= n && q[n - 1] & 0x80 != 0) {
+                        break;
+                    }
+                    p = gen::fit(&gen::trim(q), n);
+                    k += 1;
+                }
             }
         }
         _ => panic!("unknown property"),
